@@ -1,19 +1,21 @@
 /-
-  C07, "never hangs": what can be said about the fuel of the GenBank reader's loops.
+  C07, "never hangs": the fuel of the GenBank reader's loops.
 
   * The line loops (`bodyMore`, `taxonMore`, `dblinkMore`) consume at least the indent per
     iteration (`depth ≥ 1`; `genbankLocusParser` reports `depth ≥ 5`): with more fuel than bytes
     left the outcome does not depend on the fuel.
-  * The record loop: running out of fuel can only ever surface as the error value.  An outcome
-    other than that error is the same for every larger fuel (`recordLoop_mono`).
-  * The stronger statement "fuel `2n+2` is never exhausted" is FALSE (`recordLoop_fuel_refuted`):
-    frames leaked by a failing location parser inside the feature table stay on the stack, a
-    SOURCE field without ORGANISM pops one of them together with the frame of `tryAllParsers`, and
-    the scan jumps BACK to the leaked position and reads the same lines again, once per leaked
-    frame.  The number of iterations is then quadratic in the input size.
+  * The record loop: running out of fuel can only ever surface as the error value; an outcome
+    other than that error is the same for every larger fuel (`recordLoop_mono`).  Since 66de3a0
+    (SOURCE without ORGANISM clears the saved positions instead of popping one that is not its
+    own) the fuel is also ADEQUATE: every iteration consumes input or ends the loop
+    (`recordLoop_fuel`, Gts/Lemmas/GbProgress.lean).  The former counter-example (leaked
+    location-parser frames, skipped lines, SOURCE without ORGANISM: quadratic re-reading) is kept
+    as a state on which both fuels now agree (`rescanState`).
+  * The scan loop: every record read consumes its LOCUS keyword.
   Core Lean only.
 -/
 import Gts.Lemmas.GbSafeRecord
+import Gts.Lemmas.GbProgress
 namespace Gts.GenBank
 open Gts.Pars
 
@@ -59,31 +61,18 @@ theorem recordLoop_mono (length : Int) (depth : Nat) : ∀ k (sub : Sub) (s : PS
               exact ih sub' _ r s' h hr m (by omega)
       · exact h
 
-/-! ### … and the fuel `2n+2` is NOT always enough -/
+/-! ### the former counter-example to "the fuel `2n+2` is enough" -/
 
 /-- twenty empty lines, then a SOURCE field without ORGANISM and the end mark -/
 def rescanRest : Bytes := List.replicate 20 10 ++ bs "SOURCE      x\n//\n"
 
 /-- … with three saved copies of the same position below it (what a failing location parser
-leaves behind inside a feature table) -/
+leaves behind inside a feature table).  Before 66de3a0 the record loop went back to these three
+times and needed more than `2·37+2` iterations; now it fails at the first reading of the SOURCE
+line, three bytes before the end, whatever the fuel. -/
 def rescanState : PS := ⟨rescanRest, [rescanRest, rescanRest, rescanRest]⟩
 
 def sub0 : Sub := (Fields.empty, [], .buffer [], Registry.default)
-
-/-- from a sorted state the fuel `2n+2` of `GenBankParser` can run out: with fuel 76 = 2·37+2 the
-loop gives up 21 bytes before the end, with fuel 200 it ends — as Go does — with the hard failure
-of the fourth reading of the SOURCE line, 17 bytes before the end -/
-theorem recordLoop_fuel_refuted :
-    ¬ ∀ (length : Int) (depth : Nat) (sub : Sub) (s : PS), Sorted s.rest.length s.stk →
-      ∀ n m, 2 * s.rest.length + 2 ≤ n → n ≤ m →
-        (recordLoop length depth n sub).run' s = (recordLoop length depth m sub).run' s := by
-  intro h
-  have hs : Sorted rescanState.rest.length rescanState.stk :=
-    ⟨Nat.le_refl _, Nat.le_refl _, Nat.le_refl _, trivial⟩
-  have e := h 0 12 sub0 rescanState hs 76 200 (by decide) (by decide)
-  have e' := congrArg (fun x => x.2.rest.length) e
-  exact absurd e' (by decide +kernel)
-
 
 /-! ### the line loops -/
 
@@ -268,8 +257,7 @@ theorem locusParser_consumes (s : PS) (hs : Sorted s.rest.length s.stk) :
 theorem wp_clear_eq {Q} {s : PS} (k : Q (.ok ()) { s with stk := [] }) : WP clear Q s := k
 
 /-- a record that is returned has used up at least five bytes -/
-theorem genbankParser_consumes (reg : Registry) (s : PS) (hs : Sorted s.rest.length s.stk)
-    (hlen : s.rest.length < 10 ^ 9) :
+theorem genbankParser_consumes (reg : Registry) (s : PS) (hs : Sorted s.rest.length s.stk) :
     WP (genbankParser reg) (fun r s' => ∀ v, r = .ok v → s'.rest.length + 5 ≤ s.rest.length) s := by
   have hsafe := locusParser_safe _ _ _ s (Fr.init hs)
   have hdep := locusParser_depth s
@@ -294,21 +282,21 @@ theorem genbankParser_consumes (reg : Registry) (s : PS) (hs : Sorted s.rest.len
     · repeat wps_step
     · rename_i hcond
       have h0 : 0 ≤ l.length := by omega
-      have hrl := recordLoop_safeS (L := s.rest.length - 5) l.length l.depth h0 (by omega) (by omega)
+      have hrl := recordLoop_safeS (L := s.rest.length - 5) l.length l.depth h0 (by omega)
       repeat wps_step
 
 /-- the fuel `len(input) + 1` of the scan loop is adequate: every record read consumes input, so
 any two fuels above the number of bytes give the same result -/
 theorem parseAll_fuel : ∀ k k' (reg : Registry) (input : Bytes) (acc : List Record),
-    input.length < 10 ^ 9 → input.length < k → input.length < k' →
+    input.length < k → input.length < k' →
     parseAll reg k input acc = parseAll reg k' input acc
-  | 0, _, _, _, _, _, h, _ => absurd h (Nat.not_lt_zero _)
-  | _ + 1, 0, _, _, _, _, _, h => absurd h (Nat.not_lt_zero _)
-  | k + 1, k' + 1, reg, input, acc, hlen, hk, hk' => by
+  | 0, _, _, _, _, h, _ => absurd h (Nat.not_lt_zero _)
+  | _ + 1, 0, _, _, _, _, h => absurd h (Nat.not_lt_zero _)
+  | k + 1, k' + 1, reg, input, acc, hk, hk' => by
     unfold parseAll
     split
     · rfl
-    · have h := genbankParser_consumes reg ⟨input, []⟩ trivial hlen
+    · have h := genbankParser_consumes reg ⟨input, []⟩ trivial
       unfold WP at h
       rcases hrun : (genbankParser reg).run' ⟨input, []⟩ with ⟨r, s'⟩
       rw [hrun] at h
@@ -317,6 +305,6 @@ theorem parseAll_fuel : ∀ k k' (reg : Registry) (input : Bytes) (acc : List Re
       · dsimp only
         have := h _ rfl
         dsimp only at this
-        exact parseAll_fuel k k' reg' s'.rest (rec :: acc) (by omega) (by omega) (by omega)
+        exact parseAll_fuel k k' reg' s'.rest (rec :: acc) (by omega) (by omega)
 
 end Gts.GenBank
